@@ -320,13 +320,8 @@ func RenameMailboxPerUser(db *sql.DB, userID int64, oldName, newName string) err
 		return err
 	}
 
-	// Rename the mailbox
-	_, err = tx.Exec("UPDATE mailboxes SET name = ? WHERE id = ?", newName, mailboxID)
-	if err != nil {
-		return err
-	}
-
-	// Rename all hierarchical children
+	// Collect the hierarchical children first: once the mailbox itself carries its
+	// new name it could be taken for one of its own children (RENAME a a/b)
 	childLo, childHi := childNameRange(oldName)
 	rows, err := tx.Query("SELECT id, name FROM mailboxes WHERE user_id = ? AND name >= ? AND name < ?", userID, childLo, childHi)
 	if err != nil {
@@ -351,7 +346,13 @@ func RenameMailboxPerUser(db *sql.DB, userID int64, oldName, newName string) err
 	}
 	_ = rows.Close()
 
-	// Apply all updates
+	// Rename the mailbox
+	_, err = tx.Exec("UPDATE mailboxes SET name = ? WHERE id = ?", newName, mailboxID)
+	if err != nil {
+		return err
+	}
+
+	// Rename the children
 	for _, update := range updates {
 		_, err = tx.Exec("UPDATE mailboxes SET name = ? WHERE id = ?", update.newName, update.id)
 		if err != nil {
